@@ -60,7 +60,8 @@ class CheckC07(core.Check):
         maxp = sessions.max_payloads(parsed)
         paylens = [min(m, rnd.choice([0, 1, 5, 16, 33, 100])) for m in maxp]
         plan, ma, mb = faults.random_fault_plan(parsed, paylens, rnd, nslots=rnd.choice([1, 1, 2, 3]), consecutive=rnd.choice([1, 2, 3]))
-        h.setup(missing_a=ma, missing_b=mb, prologue=sessions.prologue_choice(rnd, 32, 64))
+        supply = (rnd.choice(["needed", "needed", "all"]), rnd.choice(["needed", "needed", "all"]))  # 'all': also pinned / unneeded keys
+        h.setup(missing_a=ma, missing_b=mb, prologue=sessions.prologue_choice(rnd, 32, 64), supply=supply)
         h.handshake(paylens, plan)
         h.convert()
         h.transport_phase(rnd, nmsgs=4, fault_rate=0.35)
